@@ -163,7 +163,7 @@ def _(self, value: Nat):
 
 @contract("Encoder.append_length_determinant", props=["C06", "C01"])
 def _(self, value: Nat):
-    raises(EncodeError, when=need8(value) > 127)
+    raises(EncodeError, when=need8(value) > 127, ensures=[len(exc.location) == 0])
     assigns(self)
     ensures(implies(value < 128, self.number_of_bits == old(self.number_of_bits) + 8
                     and self.value == 256 * old(self.value) + value))
@@ -217,3 +217,37 @@ def _(self, other: Obj("Encoder")) -> Obj("Encoder"):
     ensures(result is self)
     ensures(self.number_of_bits == old(self.number_of_bits) + other.number_of_bits)
     ensures(self.value == old(self.value) * pow2(other.number_of_bits) + other.value)
+
+
+@contract("Encoder.append_integer", props=["C06", "C01"])
+def _(self, value: Int):
+    # X.696 10.4: length determinant + minimal two's complement octets (only the octet structure is stated here)
+    requires(-pow2(1000) < value and value < pow2(1000))
+    use(blen_upper(abs_(value)))
+    use(blen_le(abs_(value), 1000))
+    use(pow2_mono(blen(abs_(value)), 8 * ((blen(abs_(value)) + 7) // 8)))
+    use(pow2_8((blen(abs_(value)) + 7) // 8 + 1))
+    use(pow2_add(8 * ((blen(abs_(value)) + 7) // 8) - 1, 1))
+    use(blen_le((blen(abs_(value)) + 7) // 8, 8))
+    use(blen_le((blen(abs_(value)) + 7) // 8 + 1, 8))
+    raises(EncodeError, when=False)
+    assigns(self)
+    ensures(self.number_of_bits >= old(self.number_of_bits) + 16 and (self.number_of_bits - old(self.number_of_bits)) % 8 == 0)
+
+
+@contract("Encoder.set_bit", props=["C06", "C01"])
+def _(self, offset: Nat):
+    # back-patches one bit (ENUMERATED long form marker): the bit string keeps its length
+    requires(offset < self.number_of_bits)
+    use(bor_bound(self.value, pow2(self.number_of_bits - offset - 1), self.number_of_bits))
+    use(pow2_mono(self.number_of_bits - offset, self.number_of_bits))
+    use(pow2_add(self.number_of_bits - offset - 1, 1))
+    assigns(self)
+    ensures(self.number_of_bits == old(self.number_of_bits) and self.value >= old(self.value))
+
+
+@contract("Decoder.clear_bit", props=["C06", "C16", "C08"])
+def _(self):
+    requires(self.number_of_bits >= 1)
+    assigns(self)
+    ensures(self.number_of_bits == old(self.number_of_bits) and self.value <= old(self.value))
